@@ -44,6 +44,12 @@ class Sched:
         self.aborting = False
         self.main = boot.RAW_ALLOC()
         self.main.acquire()
+        self.outer = False       # the per-run envelope scheduler (see runner.execute_plan)
+        self.adopted = set()     # actors that are threads started by the code under test
+        self.timed = {}          # actor -> virtual deadline of a timed wait
+        self.timed_out = set()
+        self.prev = None         # enclosing scheduler (nested runs)
+        self.thread_count = 0
         self.contention = 0      # probe: an actor found a lock held and had to wait
         self.holders = {}        # lock id -> actor (for reports)
         # PCT
@@ -59,6 +65,20 @@ class Sched:
         self.trace_prefix = trace_prefix
 
     # ------------------------------------------------------------------ actors
+    def adopt_thread(self, thread):
+        """a threading.Thread started by the code under test inside a simulated run becomes an
+        actor of this scheduler (its interleaving is decided here, not by the OS)"""
+        self.thread_count += 1
+        name = "%s.t%d" % (self.cur or "x", self.thread_count)
+        thread._sim_actor = name
+        thread._sim_sched = self
+        thread._started.set()
+        self.adopted.add(name)
+        SIM.log.append((len(SIM.log), self.cur, "thread-start", name))
+        SIM.probe("threads_adopted")
+        self.spawn(name, thread.run)
+        self.yield_point()
+
     def spawn(self, name, fn):
         g = boot.RAW_ALLOC()
         g.acquire()
@@ -94,6 +114,8 @@ class Sched:
     def _is_runnable(self, a):
         if a in self.done or a in self.suspended:
             return False
+        if a in self.timed_out:
+            return True
         lk = self.blocked.get(a)
         if lk is not None and lk.locked():
             return False
@@ -148,9 +170,22 @@ class Sched:
             if len(self.done) == len(self.order):
                 self._wake_main()
                 return
-            self.deadlock = True
-            self._abort(me, finished)
-            return
+            waiting_timed = [a for a in self.order if a in self.timed and a not in self.done]
+            if waiting_timed:
+                # nothing can run: virtual time jumps to the earliest pending timeout
+                a = min(waiting_timed, key=lambda x: (self.timed[x], self.order.index(x)))
+                SIM.clock = max(SIM.clock, self.timed[a])
+                self.timed_out.add(a)
+                r = [a]
+            elif all(a in self.done or a in self.adopted for a in self.order):
+                # only threads of the code under test are left and all of them are blocked for
+                # good (idle pool workers): the run is over, they are torn down
+                self._abort(me, finished)
+                return
+            else:
+                self.deadlock = True
+                self._abort(me, finished)
+                return
         if force_other:
             others = [a for a in r if a != me]
             if others:
@@ -186,17 +221,46 @@ class Sched:
             return
         self._next(me)
 
-    def block_on(self, lock):
+    def block_on(self, lock, deadline=None):
+        """park until the lock looks free (returns True: retry) or, for a timed wait, until virtual
+        time reaches the deadline because nothing else could run (returns False)"""
         me = self.cur
         if self.aborting:
             raise SimAbort("run aborted")
         self.contention += 1
         SIM.log.append((len(SIM.log), me, "blocked", "lock"))
         self.blocked[me] = lock
+        if deadline is not None:
+            self.timed[me] = deadline
         try:
             self._next(me)
         finally:
             self.blocked.pop(me, None)
+            self.timed.pop(me, None)
+        if me in self.timed_out:
+            self.timed_out.discard(me)
+            return False
+        return True
+
+    def sleep(self, seconds):
+        """time.sleep of an actor: no real time passes; the actor continues once nothing else can
+        run (virtual time jumps) - or immediately if it is alone"""
+        me = self.cur
+        if me is None or self.aborting:
+            return
+        SIM.log.append((len(SIM.log), me, "sleep", round(float(seconds), 6)))
+        lk = boot.RAW_ALLOC()
+        lk.acquire()
+        self.blocked[me] = lk
+        self.timed[me] = SIM.clock + max(float(seconds), 0.0)
+        try:
+            self._next(me)
+        finally:
+            self.blocked.pop(me, None)
+            self.timed.pop(me, None)
+            self.timed_out.discard(me)
+        if SIM.clock > SIM.max_clock:
+            raise SimAbort("simulated time budget exceeded")
 
     def note_acquire(self, lock):
         pass
@@ -239,6 +303,8 @@ class Sched:
     def run(self, wall_timeout=60.0):
         if not self.order:
             return
+        self.prev = boot.STATE["sched"]
+        prev_actor = SIM.actor
         boot.STATE["sched"] = self
         try:
             r = self._runnable()
@@ -250,5 +316,5 @@ class Sched:
             if not self.main.acquire(True, wall_timeout):
                 raise HarnessHang("scheduler did not finish within %.0fs wall" % wall_timeout)
         finally:
-            boot.STATE["sched"] = None
-            SIM.actor = "main"
+            boot.STATE["sched"] = self.prev
+            SIM.actor = prev_actor if self.prev is not None else "main"
